@@ -15,6 +15,9 @@ import ChalkModel.OpsUnify
 import ChalkModel.OpsOrphan
 import ChalkModel.OpsResolve
 import ChalkModel.OpsBuiltin
+import ChalkModel.OpsDisplay
+import ChalkModel.OpsLogging
+import ChalkModel.OpsFixedPoint
 
 namespace Chalk
 open Sexp
@@ -60,7 +63,7 @@ def opsIR : Sexp → Option Sexp
 
 /-- all op tables; add new ones at the end of this list -/
 def allOps : List (Sexp → Option Sexp) :=
-  [opsIR, opsMatch, opsAggregate, opsInPlace, opsCoherence, Chalk.Sem.opsSem, opsCanon, opsUnify, Chalk.Orphan.opsOrphan, opsResolve, Chalk.Builtin.opsBuiltin]
+  [opsIR, opsMatch, opsAggregate, opsInPlace, opsCoherence, Chalk.Sem.opsSem, opsCanon, opsUnify, Chalk.Orphan.opsOrphan, opsResolve, Chalk.Builtin.opsBuiltin, Chalk.Display.opsDisplay, Chalk.Logging.opsLogging, opsFixedPoint]
 
 def dispatch (req : Sexp) : Sexp :=
   match allOps.findSome? (fun f => f req) with
